@@ -2193,6 +2193,293 @@ def table_stream(ctx, reps):
                 break
 
 
+# ---------------------------------------------------------------------------
+# leaf stream (round 4): the norm-type leaves of Model/DerivLeaves.lean at Float, compared with the
+# real code; oracle = central differences (oracle_on), independent of the model
+
+LEAF_CLASS = {'norm': 'NormOperator', 'dist': 'DistOperator', 'l2norm': 'L2Norm',
+              'cmod': 'ComplexModulus', 'pwnorm': 'PointwiseNorm'}
+_POW2 = {}
+
+
+def _pow2_vectors(n):
+    """Integer vectors of length n with entries in -3..3 whose sum of squares is 1, 4, 16 or 64."""
+    if n not in _POW2:
+        import itertools
+        out = [list(v) for v in itertools.product(range(-3, 4), repeat=n)
+               if sum(t * t for t in v) in (1, 4, 16, 64)]
+        _POW2[n] = out
+    return _POW2[n]
+
+
+def _grid(rng, n, nonzero=False):
+    out = [rng.randint(-48, 48) / 16.0 for _ in range(n)]
+    if nonzero and not any(out):
+        out[rng.randrange(n)] = 1.5
+    return out
+
+
+def gen_leaf_case(rng):
+    t = rng.choice(['norm', 'dist', 'l2norm', 'cmod', 'pwnorm'])
+    spec = {'t': t}
+    if t in ('norm', 'dist', 'l2norm'):
+        n = rng.choice([1, 2, 3, 4, 5])
+        spec['n'] = n
+        N = n
+        y = _grid(rng, n) if t == 'dist' else [0.0] * n
+        if t == 'dist':
+            spec['y'] = y
+        stratum = rng.choice(['grid', 'grid', 'pow2norm', 'pow2norm', 'float', 'singular'])
+        if stratum == 'grid':
+            v = _grid(rng, n, nonzero=True)
+        elif stratum == 'pow2norm':
+            sc = 2.0 ** rng.randint(-3, 3)
+            v = [sc * q for q in rng.choice(_pow2_vectors(n))]
+        elif stratum == 'float':
+            v = [rng.uniform(-3, 3) for _ in range(n)]
+        else:
+            v = [0.0] * n
+        x = [a + b for a, b in zip(y, v)]          # exact: grid + small dyadic
+        if stratum == 'float' and t == 'dist':
+            x = v
+    elif t == 'cmod':
+        n = rng.choice([1, 2, 3, 4])
+        spec['n'] = n
+        N = 2 * n
+        stratum = rng.choice(['grid', 'float', 'float', 'pow2norm', 'zero-entry'])
+        if stratum == 'float':
+            x = [rng.uniform(-3, 3) for _ in range(N)]
+        elif stratum == 'pow2norm':
+            sc = 2.0 ** rng.randint(-3, 3)
+            vs = [rng.choice(_pow2_vectors(2)) for _ in range(n)]
+            x = [sc * v[0] for v in vs] + [sc * v[1] for v in vs]
+        else:
+            x = _grid(rng, N)
+            for k in range(n):
+                if x[k] == 0 and x[n + k] == 0:
+                    x[k] = 0.5
+            if stratum == 'zero-entry':
+                k = rng.randrange(n)
+                x[k] = x[n + k] = 0.0
+    else:
+        m, n = rng.choice([2, 2, 3, 4]), rng.choice([1, 2, 3])
+        spec['m'], spec['n'] = m, n
+        spec['exp'] = rng.choice([None, 2, 2.0])
+        N = m * n
+        stratum = rng.choice(['grid', 'float', 'float', 'pow2norm', 'zero-point'])
+        if stratum == 'float':
+            x = [rng.uniform(-3, 3) for _ in range(N)]
+        elif stratum == 'pow2norm':
+            sc = 2.0 ** rng.randint(-3, 3)
+            vs = [rng.choice(_pow2_vectors(m)) for _ in range(n)]
+            x = [sc * vs[k][i] for i in range(m) for k in range(n)]
+        else:
+            x = _grid(rng, N)
+            for k in range(n):
+                if not any(x[i * n + k] for i in range(m)):
+                    x[k] = 0.25
+            if stratum == 'zero-point':
+                k = rng.randrange(n)
+                for i in range(m):
+                    x[i * n + k] = 0.0
+    d = _grid(rng, N, nonzero=True) if stratum != 'float' else [rng.uniform(-2, 2) for _ in range(N)]
+    return {'kind': 'leaf', 'spec': spec, 'stratum': stratum, 'x': x, 'd': d}
+
+
+def leaf_token(spec):
+    t = spec['t']
+    if t == 'dist':
+        return 'dist|{}|{}'.format(spec['n'], fl(spec['y']))
+    if t == 'pwnorm':
+        return 'pwnorm|{}|{}'.format(spec['m'], spec['n'])
+    return '{}|{}'.format(t, spec['n'])
+
+
+def build_leaf(spec):
+    """(op, S) with the real constructors."""
+    import odl
+    t, n = spec['t'], spec['n']
+    if t == 'norm':
+        return odl.NormOperator(odl.rn(n)), n
+    if t == 'dist':
+        return odl.DistOperator(odl.rn(n).element(spec['y'])), n
+    if t == 'l2norm':
+        return odl.solvers.L2Norm(odl.rn(n)), n
+    if t == 'cmod':
+        return odl.ComplexModulus(odl.cn(n)), ('c', n)
+    S = tuple([n] * spec['m'])
+    sp = mk_space(S)
+    if spec.get('exp') is None:
+        return odl.PointwiseNorm(sp), S
+    return odl.PointwiseNorm(sp, exponent=spec['exp']), S
+
+
+def _ftok(v):
+    v = float(v)
+    if v != v:
+        return 'nan'
+    if v in (float('inf'), float('-inf')):
+        return 'inf' if v > 0 else '-inf'
+    return fs(v)
+
+
+def _ftoks(a):
+    a = list(a)
+    return ','.join(_ftok(v) for v in a) if a else '-'
+
+
+def run_leaf_case(c):
+    """Real code on one leaf case.  Returns (line, impl dict | error string, problems)."""
+    spec = c['spec']
+    line = 'leaf t={} x={} d={}'.format(leaf_token(spec), fl(c['x']), fl(c['d']))
+    try:
+        op, S = build_leaf(spec)
+        x, d = elem(S, c['x']), elem(S, c['d'])
+    except Exception as e:  # noqa
+        return line, 'err:construct {}: {}'.format(type(e).__name__, str(e)[:160]), \
+            ['constructor raised {}: {}'.format(type(e).__name__, str(e)[:200])]
+    singular = c['stratum'] in ('singular', 'zero-entry', 'zero-point')
+    problems = []
+    try:
+        with np.errstate(all='ignore'):
+            val = flat(op(x))
+        impl = {'dom': space_dim(op.domain), 'ran': space_dim(op.range), 'val': _ftoks(val.tolist())}
+    except Exception as e:  # noqa
+        return line, 'err:call {}: {}'.format(type(e).__name__, str(e)[:160]), \
+            ['op(x) raised {}: {}'.format(type(e).__name__, str(e)[:160])]
+    if not singular:
+        with np.errstate(all='ignore'):
+            problems, _, _ = oracle_on(op, x, d, exact_linear=False, history=not QUICK[0])
+        problems = list(problems)
+    try:
+        with np.errstate(all='ignore'):
+            D = op.derivative(x)
+    except ValueError as e:
+        impl['raised'] = 'ValueError'
+        if not (spec['t'] in ('norm', 'dist') and c['stratum'] == 'singular'):
+            problems.append('derivative(x) raised ValueError away from the documented point: ' + str(e)[:160])
+        return line, impl, problems
+    except Exception as e:  # noqa
+        return line, 'err:deriv {}: {}'.format(type(e).__name__, str(e)[:160]), \
+            problems + ['derivative(x) raised {}: {}'.format(type(e).__name__, str(e)[:160])]
+    if spec['t'] in ('norm', 'dist') and c['stratum'] == 'singular':
+        problems.append('derivative at the non-differentiable point did not raise the documented ValueError')
+    try:
+        with np.errstate(all='ignore'):
+            Dd = flat(D(d))
+        if hasattr(D, 'vecfield'):
+            vec = flat(D.vecfield)
+        elif hasattr(D, 'vector'):
+            vec = flat(D.vector)
+        else:
+            vec = flat(x)                 # ComplexModulusDerivative holds the point in a closure
+        impl.update({'ddom': space_dim(D.domain), 'dran': space_dim(D.range),
+                     'dvec': _ftoks(vec.tolist()), 'dval': _ftoks(Dd.tolist())})
+    except Exception as e:  # noqa
+        return line, 'err:deriv-value {}: {}'.format(type(e).__name__, str(e)[:160]), \
+            problems + ['derivative(x)(d) raised {}: {}'.format(type(e).__name__, str(e)[:160])]
+    return line, impl, problems
+
+
+def _close_toks(a, b, rel):
+    ta, tb = a.split(','), b.split(',')
+    if len(ta) != len(tb):
+        return False
+    for u, v in zip(ta, tb):
+        if u == v:
+            continue
+        if u in ('nan', 'inf', '-inf', '-') or v in ('nan', 'inf', '-inf', '-'):
+            return False
+        fu, fv = float(core.pfrac(u)), float(core.pfrac(v))
+        if not abs(fu - fv) <= rel * max(abs(fu), abs(fv)) + 1e-300:
+            return False
+    return True
+
+
+def compare_leaf(ctx, c, impl, ans):
+    """EXACT (bit for bit) wherever NumPy's order of operations is determined: everything for
+    ComplexModulus / PointwiseNorm (element-wise arithmetic) on every stratum incl. random doubles;
+    for the norm-type functionals the value and the held vector on the dyadic strata (exact sum of
+    squares, correctly rounded sqrt and division), derivative(x)(d) on the power-of-two-norm stratum.
+    What goes through a BLAS dot product on non-dyadic data is compared to rel. 1e-13."""
+    t, st = c['spec']['t'], c['stratum']
+    if isinstance(impl, str):
+        ctx.disagree(c, impl, ans[:300], stream='leaf')
+        return
+    if impl.get('raised'):
+        if not ans.startswith('err:deriv '):
+            ctx.disagree(c, 'derivative raised ' + impl['raised'], ans[:300], stream='leaf')
+            return
+        f = dict(tok.split('=', 1) for tok in ans.split()[1:])
+        for key in ('dom', 'ran', 'val'):
+            if str(impl[key]) != f.get(key):
+                ctx.disagree(c, '{}={}'.format(key, impl[key]), '{}={}'.format(key, f.get(key)), stream='leaf')
+                return
+        return
+    if not ans.startswith('ok '):
+        ctx.disagree(c, 'ok', ans[:300], stream='leaf')
+        return
+    f = dict(tok.split('=', 1) for tok in ans.split()[1:])
+    elementwise = t in ('cmod', 'pwnorm')
+    dyadic = st != 'float'
+    mode = {'dom': 0, 'ran': 0, 'ddom': 0, 'dran': 0,
+            'val': 0 if (elementwise or dyadic) else 1e-13,
+            'dvec': 0 if (elementwise or dyadic) else 1e-13,
+            'dval': 0 if (elementwise or st in ('pow2norm', 'singular')) else 1e-13}
+    for key in ('dom', 'ran', 'val', 'ddom', 'dran', 'dvec', 'dval'):
+        a, b = str(impl[key]), f.get(key, '?')
+        if a == b:
+            continue
+        if mode[key] and _close_toks(a, b, mode[key]):
+            continue
+        ctx.disagree(c, '{}={}'.format(key, a), '{}={}'.format(key, b), stream='leaf')
+        return
+
+
+def leaf_stream(ctx, n_cases):
+    rng = ctx.rng
+    batch, lines = [], []
+    for _ in range(n_cases):
+        c = gen_leaf_case(rng)
+        line, impl, problems = run_leaf_case(c)
+        batch.append((c, impl, problems))
+        lines.append(line)
+    outs = core.run_driver('C06', lines)
+    for (c, impl, problems), ans in zip(batch, outs):
+        t, st = c['spec']['t'], c['stratum']
+        nontrivial = (not isinstance(impl, str) and not impl.get('raised') and
+                      any(tok not in ('0', 'nan') for tok in impl.get('dval', '0').split(',')))
+        ctx.case(('leaf', t, st, c['spec'].get('n'), c['spec'].get('m')) if nontrivial else None,
+                 sample={'leaf': leaf_token(c['spec']), 'x': c['x'], 'd': c['d'],
+                         'model_answer': ans[:200]} if nontrivial and st == 'pow2norm' else None)
+        ctx.hit('leaf/{}/{}'.format(t, st))
+        if not isinstance(impl, str):
+            if impl.get('raised'):
+                ctx.hit('leaf/{}/raises-at-non-differentiable-point'.format(t))
+            elif t == 'l2norm' and st == 'singular':
+                ctx.hit('leaf/l2norm/at-zero-returns-zero-functional')
+            elif t == 'cmod' and st == 'zero-entry':
+                ctx.hit('leaf/cmod/zero-entry-divides-by-zero')
+            elif t == 'pwnorm' and st == 'zero-point':
+                ctx.hit('leaf/pwnorm/zero-point-left-undivided')
+            elif t == 'pwnorm':
+                ctx.hit('leaf/pwnorm/exponent-spelling={}'.format(c['spec'].get('exp')))
+        if problems:
+            ctx.violation('leaf {} stratum={}'.format(LEAF_CLASS[t], st), '; '.join(problems)[:700], c)
+        compare_leaf(ctx, c, impl, ans)
+
+
+LEAF_BRANCHES = ['leaf/{}/{}'.format(t, st) for t, sts in [
+    ('norm', ['grid', 'pow2norm', 'float', 'singular']), ('dist', ['grid', 'pow2norm', 'float', 'singular']),
+    ('l2norm', ['grid', 'pow2norm', 'float', 'singular']),
+    ('cmod', ['grid', 'pow2norm', 'float', 'zero-entry']),
+    ('pwnorm', ['grid', 'pow2norm', 'float', 'zero-point'])] for st in sts] + [
+    'leaf/norm/raises-at-non-differentiable-point', 'leaf/dist/raises-at-non-differentiable-point',
+    'leaf/l2norm/at-zero-returns-zero-functional', 'leaf/cmod/zero-entry-divides-by-zero',
+    'leaf/pwnorm/zero-point-left-undivided', 'leaf/pwnorm/exponent-spelling=None',
+    'leaf/pwnorm/exponent-spelling=2', 'leaf/pwnorm/exponent-spelling=2.0']
+
+
 def regenerate(ctx):
     from extract import ufunc_deriv
     changed = ufunc_deriv.regenerate()
@@ -2240,6 +2527,7 @@ def run(ctx):
     exact_stream(ctx, 1500 if quick else 20000)
     mixed_stream(ctx, 300 if quick else 4000)
     functional_stream(ctx, 320 if quick else 3000)
+    leaf_stream(ctx, 400 if quick else 6000)
     zoo_stream(ctx, 3 if quick else 25)
     try:
         exceptional_points(ctx)
@@ -2251,7 +2539,7 @@ def run(ctx):
         ctx.hit(key, cnt)
     ctx.extra['observations'] = {k: v for k, v in sorted(HIST.items()) if k.startswith('observation/')}
     if not quick:
-        unhit = [b for b in EXPECTED_BRANCHES if b not in ctx.branches]
+        unhit = [b for b in EXPECTED_BRANCHES + LEAF_BRANCHES if b not in ctx.branches]
         ctx.extra['unhit_model_branches'] = unhit
         if unhit:
             ctx.disagree({'kind': 'coverage'}, 'branches never generated', unhit, stream='coverage')
@@ -2309,6 +2597,16 @@ def search(ctx, broken):
             functional_stream(ctx, 1500)
         if not ctx.violations:
             zoo_stream(ctx, 10)
+        if not ctx.violations:
+            for i in range(3000):
+                c = gen_leaf_case(rng)
+                _, _, problems = run_leaf_case(c)
+                ctx.evaluations += 1
+                if problems:
+                    ctx.violation('leaf {} stratum={}'.format(LEAF_CLASS[c['spec']['t']], c['stratum']),
+                                  '; '.join(problems)[:700], c)
+                    if len(ctx.violations) > 20:
+                        break
     finally:
         ctx.tier = saved
 
@@ -2325,6 +2623,9 @@ def replay(ctx, case):
         return '; '.join(problems) if problems else None
     if kind == 'functional':
         problems, _, _ = run_fun_case(case)
+        return '; '.join(problems) if problems else None
+    if kind == 'leaf':
+        _, _, problems = run_leaf_case(case)
         return '; '.join(problems) if problems else None
     if kind == 'zoo':
         for entry in zoo(ctx):
